@@ -53,6 +53,7 @@ STATIC = [
     "2020-01-01", "2020-01-01T00:00:00+00:00", "12:30:00", "PT1S", "P1D", "-P1D", "é", "\x00", "{", "[", "()", "nan",
     '["a","b"]', '{"f0": 1, "f1": "x"}', "[[1, 2], [3, 4]]", "(1, 2)", "{1, 2}", "{'a': 1}", "1e5", "0x10", "1_000",
     "00000000-0000-0000-0000-000000000001", "a/b", " 1 ", "[1,2", '{"a":', "퟿",
+    "{1: 2}", "{None: 1, True: 2}", "{(1, 2): ['3']}", b"{1: '2', 2.5: 3}", "{1: {2: 3}}", "{1.5: [1]}", "[(1, 2)]", "{'a': {1: 'x'}}", "((1, 2), (3, 4))",
     b"", b"1", b"abc", b"[1,2]", b'{"a": 1}', b"\xff\xfe", b"\xff", "é".encode("latin-1"), "ab".encode("utf-16"),
     bytearray(b"1"), bytearray(b"[1]"), memoryview(b"1"), memoryview(b"abc"), memoryview(bytearray(b"[1,2]")),
     [], [1], [1, 2], ["a", "b"], [[1, 2]], [[1, 2], [3, 4]], [("a", 1)], [["k", "v"]], [1, "a", None], [[]], [None],
@@ -124,6 +125,9 @@ def corruptions(wire, rng, limit=24, other_wires=()):
                 muts.append(lambda n, k=k: {a: ([b] if a == k else b) for a, b in n.items()})  # retype (wrap)
                 muts.append(lambda n, k=k: {a: (None if a == k else b) for a, b in n.items()})
                 muts.append(lambda n, k=k: {a: ("zzz" if a == k else b) for a, b in n.items()})
+            muts.append(lambda n: repr({i: e for i, e in enumerate(n.values())}))  # python-literal text with non-text keys
+            muts.append(lambda n: repr({(None if i == 0 else i * 1.5): e for i, e in enumerate(n.values())}).encode())
+            muts.append(lambda n: {i: e for i, e in enumerate(n.values())})  # non-text keys, as a dict
             muts.append(lambda n: list(n.items()))  # item list
             muts.append(lambda n: [list(p) for p in n.items()])
             muts.append(lambda n: {**n, "extra_key": 1})
